@@ -40,6 +40,20 @@ type op struct {
 	pauseU int // microseconds to sleep before the call (scheduling diversity; no effect on results)
 }
 
+// call is the op in the syntax of the driver's `dsched` line (CloseWithoutWaiting: the model has Close only;
+// the results are the same)
+func (o op) call() string {
+	switch o.kind {
+	case "read":
+		return fmt.Sprintf("read:%d", o.a)
+	case "seek":
+		return fmt.Sprintf("seek:%d:%d", o.a, o.b)
+	case "seekrange":
+		return fmt.Sprintf("seekrange:%d:%d", o.a, o.b)
+	}
+	return "close"
+}
+
 func (o op) line() string {
 	switch o.kind {
 	case "read":
@@ -507,11 +521,12 @@ type testCase struct {
 }
 
 type caseOut struct {
-	lines [][2]string // op line, impl output
-	fails []failure
-	hung  int
-	sigs  []string
-	got   bool
+	lines  [][2]string // op line, impl output
+	fails  []failure
+	hung   int
+	sigs   []string
+	got    bool
+	dsched int
 }
 
 func (c *testCase) replay(upto int) string {
@@ -557,6 +572,20 @@ func runCase(c *testCase, leakCheck bool) caseOut {
 			atomic.AddInt32(&hungTotal, 1)
 		}
 		out.got = out.got || res.gotBytes
+		// The same calls through the concurrent MODEL (Model/Rac/ConcData.lean) under a pseudo-random
+		// schedule: it must print what the real concurrent Reader returned.
+		if lv == 2 && c.tf.valid && !res.hung && len(res.fails) == 0 && len(res.outs) == len(c.ops) &&
+			c.tf.size <= 400000 && len(c.tf.chunks) <= 450 {
+			seed := uint64(c.id)*7919 + c.tf.seed%1000003
+			calls := make([]string, len(c.ops))
+			for i, o := range c.ops {
+				calls[i] = o.call()
+			}
+			out.lines = append(out.lines, [2]string{
+				fmt.Sprintf("dsched n=%d seed=%d %s", 1+seed%3, seed, strings.Join(calls, " ")),
+				strings.Join(res.outs, " | ")})
+			out.dsched++
+		}
 	}
 	return out
 }
@@ -735,6 +764,9 @@ func main() {
 		if !c.tf.valid {
 			r.Count("file:invalid-chunk")
 		}
+		if o.dsched > 0 {
+			r.Count("model-schedule:dsched-lines")
+		}
 		for _, op := range c.ops {
 			r.Count("op:" + op.kind)
 		}
@@ -771,7 +803,7 @@ func main() {
 		raceSupport(r)
 	}
 	r.Extra("concurrency_levels", concLevels)
-	r.Finish("cases = (file, call sequence) run on a fresh rac.Reader for each Concurrency in {0,1,2,3,8}; files from rac.Writer+raczlib, " +
+	r.Finish("cases = (file, call sequence) run on a fresh rac.Reader for each Concurrency in {0,1,2,3,8}, and (valid files up to 400 kB) through the concurrent Lean model under a pseudo-random schedule (dsched); files from rac.Writer+raczlib, " +
 		"ChunkWriter+zlib with implicit-zero tails, CodecZeroes, and a harness 'stored' codec (short reads, late EOF, too-large/truncated chunks: Concurrency 0,1 only); " +
 		"positions/lengths aimed at chunk and 64 KiB worker-buffer boundaries, file end, limits; non-trivial = a Read that returns bytes after a Seek/SeekRange; " +
 		"distinct = (family, chunk count, concurrency, op-sequence hash)")
